@@ -82,6 +82,9 @@ Muts(b) ==
   \cup { [kind |-> "foreign", i |-> p, j |-> 0, v |-> U64Zero] : p \in 1..n }
   \cup { [kind |-> "unknownlast", i |-> 0, j |-> 3, v |-> U64Zero] }
   \cup { [kind |-> "missing", i |-> i, j |-> 0, v |-> U64Zero] : i \in 1..n }
+  \* two edits at once: one section absent AND the declared length of another one replaced (a check that lives in the
+  \* handling of one section must not be the only guard of another section's bounds)
+  \cup UNION { UNION { { [kind |-> "missinglen", i |-> i, j |-> j, v |-> v] : v \in Around(SmallVal(t[j].len), fsize) } : j \in (1..n) \ {i} } : i \in 1..n }
   \cup { [kind |-> "nsec", i |-> d, j |-> 0, v |-> U64Zero] : d \in {n - 1, n + 1, 0} }
   \cup { [kind |-> "slcount", i |-> d, j |-> 0, v |-> U64Zero] : d \in {2 * n - 1, 2 * n + 1, 2 * n + 2, 0} }
   \cup { [kind |-> "trunc", i |-> c, j |-> 0, v |-> U64Zero] : c \in 0..(fsize - 1) }
@@ -133,6 +136,8 @@ Apply(b, m) ==
             ELSE Build(b, InsAt(t, m.i, [name |-> nm, len |-> U64(Len(body))]), 2 * n + 2, n + 1, InsAt(bd, m.i, body))
     [] m.kind = "unknownlast" -> Build(b, Append(t, [name |-> Unknown(3).name, len |-> U64(3)]), 2 * n + 2, n + 1, Append(bd, Unknown(3).body))
     [] m.kind = "missing" -> Build(b, RemAt(t, m.i), 2 * n - 2, n - 1, RemAt(bd, m.i))
+    [] m.kind = "missinglen" -> LET jj == IF m.j > m.i THEN m.j - 1 ELSE m.j IN
+                                 Build(b, [RemAt(t, m.i) EXCEPT ![jj].len = m.v], 2 * n - 2, n - 1, RemAt(bd, m.i))
     [] m.kind = "nsec" -> Build(b, t, 2 * n, m.i, bd)
     [] m.kind = "slcount" -> Build(b, t, m.i, n, bd)
     [] m.kind = "trunc" -> SubSeq(Plain(b), 1, m.i)
